@@ -88,6 +88,31 @@ pub fn run(input: &mut dyn BufRead, out: &mut dyn Write, _args: &[String]) -> R 
                 let res: Vec<Value> = arr(&v["frames"]).iter().map(|f| packet(&blob(f), &mut flows)).collect();
                 json!({"id": id, "out": res})
             }
+            // the one-packet front end (process_tls_ipv4 / process_tls_ipv6), which the unified analyzer uses
+            "stateless" => {
+                let res: Vec<Value> = arr(&v["frames"])
+                    .iter()
+                    .map(|f| {
+                        let b = blob(f);
+                        let pk = |o: Result<huginn_net_tls::ObservableTlsPackage, huginn_net_tls::HuginnNetTlsError>| match o {
+                            Ok(p) => match p.tls_client.as_ref() {
+                                Some(c) => json!({"r": "some", "out": {"sig": client_to(c)}}),
+                                None => json!({"r": "none"}),
+                            },
+                            Err(e) => json!({"r": "err", "e": e.to_string()}),
+                        };
+                        match guarded(|| match parse_packet(&b) {
+                            IpPacket::Ipv4(p) => pk(huginn_net_tls::process_tls_ipv4(&p)),
+                            IpPacket::Ipv6(p) => pk(huginn_net_tls::process_tls_ipv6(&p)),
+                            IpPacket::None => json!({"r": "noip"}),
+                        }) {
+                            Ok(v) => v,
+                            Err(p) => json!({"r": "panic", "e": p}),
+                        }
+                    })
+                    .collect();
+                json!({"id": id, "out": res})
+            }
             o => return Err(format!("unknown op {o}")),
         };
         writeln!(out, "{o}").map_err(|e| e.to_string())?;
